@@ -1,13 +1,104 @@
 (* C02 -- the Elias-Fano sparse vector answers every query exactly (set semantics).
-   Only property theorems here: statement, [exact lemma], Print Assumptions. *)
+   Only property theorems here: statement, [exact lemma], Print Assumptions.
+
+   Reading guide.
+   * [sv_build_set sp md w' n P] is the model of SparseBuilder::new(n, |P|), try_set for every element of P,
+     SparseVector::try_from. [w'] stands for the result of the f64 expression in get_params (an oracle: every
+     value 1..63 is covered); [eff_width w' n m] is the width get_params then uses (w' if 0 < m <= n, else 1).
+   * The embedded plain bitvector enters through one contract (Proofs/SparseBuild.v):
+     [high_contract sp md]: BitVector::from(raw) followed by enable_select and enable_select_zero succeeds and
+     the result answers get / select / select_zero as the bit list stored in raw (this is C01).
+     The embedded IntVector needs no assumption: with_len / set / get are proved to behave as a sequence of
+     w-bit values in Proofs/SparseLow.v ([C02_low_part] below).
+   * [m + buckets < 2^64]: the high part is addressable (SparseBuilder computes ones + buckets in usize). *)
 From Coq Require Import NArith List Bool.
 Require Import SDS.Model.Mach SDS.Model.Bits SDS.Model.Raw SDS.Model.IntVec SDS.Model.BitVec SDS.Model.Sparse.
-Require Import SDS.Spec.BitSeq SDS.Spec.ValSeq SDS.Proofs.BVCommon SDS.Proofs.SparseProof.
+Require Import SDS.Spec.BitSeq SDS.Spec.ValSeq SDS.Proofs.BVCommon SDS.Proofs.SparseSeq SDS.Proofs.SparseProof.
+Require Import SDS.Proofs.SparseBuild SDS.Proofs.SparseLow SDS.Proofs.SparseZero SDS.Proofs.SparseMain.
 Import ListNotations.
 Open Scope N_scope.
 
-(* the number of buckets is ceil(n / 2^w) for every admissible low width *)
+(* the number of buckets is ceil(n / 2^w) for every admissible low width; width 64 (never chosen) gives one bucket,
+   anything wider is rejected by the bounds-checked mask table *)
 Theorem C02_buckets : forall universe w,
   1 <= w <= 63 -> get_buckets universe w = Ok ((universe + 2 ^ w - 1) / 2 ^ w).
 Proof. exact get_buckets_spec. Qed.
 Print Assumptions C02_buckets.
+Theorem C02_buckets_64 : forall universe,
+  universe < 2 ^ 64 -> get_buckets universe 64 = Ok (if universe =? 0 then 0 else 1).
+Proof. exact get_buckets_64. Qed.
+Print Assumptions C02_buckets_64.
+
+(* the low part: IntVector::with_len(len, w, 0), set and get as a sequence of w-bit values *)
+Theorem C02_low_part : exists R : intvec -> N -> list N -> Prop,
+  (forall len w, 1 <= w <= 64 ->
+     exists v, iv_with_len len w 0 = Some (Ok v) /\ R v w (repeatN 0 (N.to_nat len))) /\
+  (forall v w L i x, R v w L -> i < lenN L -> x < 2 ^ w ->
+     exists v', iv_set v i x = Ok v' /\ R v' w (setN L i x)) /\
+  (forall v w L, R v w L ->
+     ilen v = lenN L /\ iwidth v = w /\ forall i, i < lenN L -> iv_get v i = Ok (nthd L i)).
+Proof. exact low_contract_holds. Qed.
+Print Assumptions C02_low_part.
+
+(* Main theorem. For every universe size, every strictly increasing position list below it, every width the rule
+   can produce, both select implementations and both overflow modes: the builder accepts the list; the high
+   part H is the unary bucket code with exactly ceil(n / 2^w) unset bits (the i-th set bit of H is at
+   (P[i] >> w) + i, the k-th unset bit at k + |{p : p >> w <= k}|); and every query returns the defined answer:
+   get below n; rank, rank_zero, select, select_zero, predecessor, successor for EVERY argument. *)
+Theorem C02_sparse_exact : forall sp md w' n P,
+  high_contract sp md ->
+  n < 2 ^ 64 -> 1 <= w' <= 63 -> increasing P = true -> all_below n P = true ->
+  lenN P + buckets_of n (eff_width w' n (lenN P)) < 2 ^ 64 ->
+  exists sv H,
+    sv_build_set sp md w' n P = Ok (inl sv) /\
+    (let w := eff_width w' n (lenN P) in
+     bv_select_ok sp md (sv_high sv) H /\
+     lenB H = lenN P + (n + 2 ^ w - 1) / 2 ^ w /\
+     (forall i, i < lenN P -> select1 H i = Some (nthd P i / 2 ^ w + i)) /\
+     (forall b, b < (n + 2 ^ w - 1) / 2 ^ w -> select0 H b = Some (b + vs_rank P ((b + 1) * 2 ^ w)))) /\
+    (sv_len sv = n /\ sv_count_ones sv = lenN P /\ sv_count_zeros sv = n - lenN P /\
+     (forall i, i < n -> sv_get sp md sv i = Ok (vs_get P i)) /\
+     (forall i, sv_rank sp md sv i = Ok (vs_rank P i)) /\
+     (forall r, sv_select sp md sv r = Ok (vs_select P r)) /\
+     (forall v, it_first md sv (sv_predecessor sp md sv v) = Ok (hd_error (vs_pred P v))) /\
+     (forall v, it_first md sv (sv_successor sp md sv v) = Ok (hd_error (vs_succ P v))) /\
+     sv_is_multiset md sv = Ok (has_dup P)) /\
+    ((forall i, sv_rank_zero sp md sv i = Ok (i - vs_rank P i)) /\
+     (forall r, sv_select_zero sp md sv r = Ok (vs_select_zero P n r)) /\
+     (forall k, (let* z := sv_zero_iter md sv in zi_take md sv k z) = Ok (vs_zeros_from P n 0 k)) /\
+     (forall r k, (let* z := sv_select_zero_iter sp md sv r in zi_take md sv k z) = Ok (vs_zeros_from P n r k)) /\
+     (forall r, n - lenN P <= r -> sv_select_zero sp md sv r = Ok None) /\
+     (forall r, r < n - lenN P -> exists z, sv_select_zero sp md sv r = Ok (Some z) /\
+        z < n /\ vs_get P z = false /\ vs_rank P z + r = z)) /\
+    (* the bit iterator iter(), one_iter and the iterators returned by select_iter / predecessor / successor, driven by ANY sequence of
+       next() (false) and next_back() (true) calls, behave as a double-ended iterator over the reference list *)
+    ((forall pat, (let* s := sv_iter_new md sv in sbi_drive md sv pat s) = Ok (deque_run (vs_bits P n) pat)) /\
+     (forall pat, it_drive md sv pat (sv_one_iter sv) = Ok (deque_run (vs_ranked P) pat)) /\
+     (forall r pat, (let* it := sv_select_iter sp md sv r in it_drive md sv pat it) = Ok (deque_run (skipN (vs_ranked P) r) pat)) /\
+     (forall v pat, (let* it := sv_predecessor sp md sv v in it_drive md sv pat it) = Ok (deque_run (vs_pred P v) pat)) /\
+     (forall v pat, (let* it := sv_successor sp md sv v in it_drive md sv pat it) = Ok (deque_run (vs_succ P v) pat))).
+Proof. exact sparse_set_exact. Qed.
+Print Assumptions C02_sparse_exact.
+
+(* The same answers for ANY vector that represents (n, P) with width w through a bit list H: the statement the
+   builder theorem is composed with, usable for loaded vectors as well. [sv_ok] (Proofs/SparseProof.v) says:
+   n < 2^64, 1 <= w <= 63, P sorted and below n, sv.len = n, H is the unary bucket code of P,
+   bv_select_ok for sv.high and H, low_ok for sv.low and the low parts of P. *)
+Theorem C02_queries_of_representation : forall sp md sv n w P H,
+  sv_ok sp md sv n w P H -> sorted_lt P ->
+  present_queries_ok sp md sv n P /\ zero_queries_ok sp md sv n P /\ iter_queries_ok sp md sv n P.
+Proof. intros sp md sv n w P H Hok Hs. split; [exact (sv_ok_present _ _ _ _ _ _ _ Hok)|split; [exact (sv_ok_zero _ _ _ _ _ _ _ Hok Hs)|exact (sv_ok_iters _ _ _ _ _ _ _ Hok)]]. Qed.
+Print Assumptions C02_queries_of_representation.
+
+(* non-vacuity: the documentation example of SparseVector evaluated in the model (width 5 is what the crate chooses) *)
+Example C02_doc_example :
+  match sv_build_set Pdep Debug 5 137 [1; 33; 95; 123] with
+  | Ok (inl sv) =>
+      sv_rank Pdep Debug sv 33 = Ok 1 /\ sv_rank Pdep Debug sv 34 = Ok 2 /\ sv_rank_zero Pdep Debug sv 65 = Ok 63 /\
+      sv_select Pdep Debug sv 1 = Ok (Some 33) /\ sv_select_zero Pdep Debug sv 35 = Ok (Some 37) /\
+      it_first Debug sv (sv_predecessor Pdep Debug sv 2) = Ok (Some (0, 1)) /\
+      it_first Debug sv (sv_successor Pdep Debug sv 124) = Ok None /\
+      sv_get Pdep Debug sv 33 = Ok true /\ sv_count_zeros sv = 133
+  | _ => False
+  end.
+Proof. vm_compute. repeat split. Qed.
